@@ -119,7 +119,11 @@ def run(ctx):
             apps = [(i, s) for i, s in enumerate(guarded_body) if match(pat(f"{selfL}.append($x)"), s.value if isinstance(s, ast.Expr) else s)]
             stores = [(i, s) for i, s in enumerate(guarded_body) if isinstance(s, ast.Assign) and len(s.targets) == 1
                       and isinstance(s.targets[0], ast.Subscript) and txt(s.targets[0].value) == selfM]
-            others = [s for s in guarded_body if s not in [a for _, a in apps] and s not in [a for _, a in stores] and not isinstance(s, (ast.Return, ast.Pass))]
+            temps = {txt(s.targets[0] if isinstance(s, ast.Assign) else s.target): (i, s) for i, s in enumerate(guarded_body)
+                     if isinstance(s, (ast.Assign, ast.AnnAssign)) and s.value is not None and isinstance((s.targets[0] if isinstance(s, ast.Assign) else s.target), ast.Name)
+                     and not any(isinstance(x, ast.Call) and txt(x.func) != "len" for x in ast.walk(s.value))}
+            others = [s for s in guarded_body if s not in [a for _, a in apps] and s not in [a for _, a in stores] and not isinstance(s, (ast.Return, ast.Pass))
+                      and s not in [t_[1] for t_ in temps.values()]]
             if len(apps) != 1 or len(stores) != 1 or others:
                 if len(apps) == 1 and not stores and not others:
                     o.violated(add, apps[0][1], "element appended but its index is never recorded in the map")
@@ -135,7 +139,11 @@ def run(ctx):
                     o.violated(add, sm, f"append({txt(arg)}) / map[{txt(key)}] do not both use the inserted element `{e}`")
                 else:
                     o.holds(add, sa, "append and map store use the inserted element")
-                idx = rules.term_of(sm.value, Scope(add.node))
+                idx_expr = sm.value
+                if isinstance(idx_expr, ast.Name) and idx_expr.id in temps and Scope(add.node).n_bindings(idx_expr.id) == 1:
+                    # the index is computed into a local first: what counts is where that local is evaluated
+                    im, idx_expr = temps[idx_expr.id][0], temps[idx_expr.id][1].value
+                idx = rules.term_of(idx_expr, Scope(add.node), keep=tuple(temps))
                 ln = tm.parse(f"len({selfL})")
                 want = tm.sub(ln, tm.ONE) if im > ia else ln
                 res = tm.compare(idx, want)
@@ -263,25 +271,28 @@ def run(ctx):
         else:
             o.violated(rem, sl if not ok_l else smp, f"swap stores are `{txt(sl)}` / `{txt(smp)}`, expected {selfL}[{pos}] = {last} and {selfM}[{last}] = {pos}")
         # guard
-        guards = [a for a in par.ancestors(sl) if isinstance(a, ast.If)]
-        guards_m = [a for a in par.ancestors(smp) if isinstance(a, ast.If)]
-        if not guards_m:
+        # the guard is a path condition of the two stores: an enclosing `if`, or a preceding `if <last slot>: return`
+        conds_l = rules.path_conditions(par, sl)
+        conds_m = rules.path_conditions(par, smp)
+        if not conds_m:
             # when the removed element sits in the final slot, last IS the removed element: the unguarded map store
             # re-inserts the key that the lookup has just popped
             o.violated(rem, smp, f"`{txt(smp)}` runs unguarded: when the removed element is in the final slot (last-inserted or only member) `{last}` is the removed element "
                                  "itself, so its key is re-inserted into the map - membership stays true, re-adding is a no-op, a second remove does not raise"
                                  + ("" if read_last_form else "; and the list store indexes past the end (IndexError)"))
             return
-        if read_last_form and not guards:
-            guards = guards_m  # the list self-assignment L[pos] = L[-1] is harmless for the final slot
-        if len(guards) != 1 or guards != guards_m or par.branch_of(sl, guards[0]) != par.branch_of(smp, guards[0]):
+        if read_last_form and not conds_l:
+            conds_l = conds_m  # the list self-assignment L[pos] = L[-1] is harmless for the final slot
+        same = len(conds_l) == len(conds_m) and all(a_[0] is b_[0] and a_[1] == b_[1] for a_, b_ in zip(conds_l, conds_m))
+        if len(conds_m) != 1 or not same:
             o.undecided("guard structure of the swap not recognised", rem, sl)
             return
-        g = guards[0]
-        branch = par.branch_of(sl, g)
+        gtest, gpol = conds_m[0]
+        g = par.stmt_of(gtest)
+        branch = "body" if gpol else "orelse"
         # the comparison may be evaluated into a local before the pop (`is_last = pos == len(L) - 1`)
-        test, eval_point = g.test, g
-        neg0 = branch == "orelse"
+        test, eval_point = gtest, g
+        neg0 = not gpol
         while isinstance(test, ast.UnaryOp) and isinstance(test.op, ast.Not):
             neg0, test = not neg0, test.operand
         if isinstance(test, ast.Name) and sc.def_stmt(test.id) is not None and test.id not in sc.mutated:
@@ -295,8 +306,9 @@ def run(ctx):
             return
         if r is None:
             # identity form: last != e  (the popped element is not the removed one)
-            t = txt(g.test)
-            if t in (f"{last} != {e}", f"{e} != {last}") and branch == "body":
+            t = txt(gtest)
+            cf = rules.canon_fact(gtest, gpol)
+            if cf == rules.canon_fact(astx.pat(f"{last} == {e}"), False):
                 o.holds(rem, g, f"guard `{t}`: swap only when the removed element was not in the final slot")
             else:
                 o.undecided(f"guard `{t}` not recognised", rem, g)
